@@ -44,7 +44,10 @@ typedef struct {
 static void ms_merge_cb(void *clos, const uint8_t *key, size_t lk, const uint8_t *v0, size_t l0, const uint8_t *v1, size_t l1, uint8_t **mv, size_t *lmv)
 {
 	mclos_t *c = clos;
-	if (c->dso_style) { ms_union(v0, l0, v1, l1, mv, lmv); return; }     /* called concurrently from pool workers: no shared counters */
+	if (c->dso_style) {     /* called concurrently from pool workers: no shared counters */
+		if (c->have_fail && key_cmp(key, lk, c->fail_key, c->fail_len) == 0) { *mv = NULL; *lmv = 0; return; }
+		ms_union(v0, l0, v1, l1, mv, lmv); return;
+	}
 	c->calls++;
 	if (c->have_fail && key_cmp(key, lk, c->fail_key, c->fail_len) == 0) { c->failures_returned++; *mv = NULL; *lmv = 0; return; }
 	/* operands must be id lists belonging to this key (an original value or an earlier result): catches stale or foreign buffers */
